@@ -172,3 +172,16 @@ reg("C07", harness="c07_stream", level="model_checking", deadline=(500, 2400), e
     rule="state = normalised image of inflate_state / isal_zstream+level_buf + cursor; transition = one real API call under one environment "
          "choice; traces_validated_against_impl = root-to-terminal paths (all are implementation executions); distinct_nontrivial = graphs and "
          "stream/cpu combinations completed.")
+
+
+reg("C14", harness="c14_flush", level="model_checking", deadline=(300, 1800), extra_src=["ref/ref_inflate.c"], engine="explore",
+    technique="explicit-state exploration of the real isal_deflate with flush requests as per-call choices (flush budget 2); every reachable flush point checked; flush-position sweeps; one-shot pair closure",
+    level_text="Every flush point reachable in the deflate state graphs (all call histories over in/out/flush/eos alphabets, up to 2 flush requests "
+               "at any position, SYNC/FULL in any mix) is checked: marker 00 00 FF FF on a byte boundary, the prefix decodes (reference, prefix "
+               "mode) to exactly the input handed over so far, state NEW_HDR; at every terminal each FULL-flush suffix is decoded with an EMPTY "
+               "window. Longer repetitive inputs: one or two flush requests at every call index / pair of indices. One-shot: all ordered pairs "
+               "from 48 inputs x levels x 3 CPU levels: FULL_FLUSH output is unterminated + byte aligned and concatenates into one valid stream.",
+    level_note="flush budget 2 in graphs; positions sweep uses uniform input chunks; trusted: ref/ref_inflate.c window/distance accounting.",
+    runs=[dict(flavour="sim", part="graphs"), dict(flavour="sim", part="positions"), dict(flavour="sim", part="stateless")],
+    rule="state/transition as in C07; a flush point = SYNC/FULL call returning with avail_in==0 and avail_out>0; distinct_nontrivial = graphs, "
+         "(input,level,cpu) position sweeps and (A,B) pairs completed.")
